@@ -112,7 +112,8 @@ CLAIMED = {
          "by the output slot; the result table is unreachable after preparation; results are kept while a consumer is pending (C16_*).", "4/C16"),
  "C10": ("proof", "Lean 4 proof (error-bound invariant over generated stop condition) + trace refinement check",
          "running <= workers, pool size <= workers, failures <= k + workers for max_errors = k, no early stop, idle workers can always take ready "
-         "items (C10_workers, C10_pool, C10_errors_bound, C10_no_early_stop, C10_none, C10_parallel, C10_parallel_begin); retry: attempts = "
+         "items - also when idle workers SLEEP in Queue.get and only put's notify() wakes one: min(queued, idle) idle workers are always awake "
+         "(C10_workers, C10_pool, C10_errors_bound, C10_no_early_stop, C10_none, C10_parallel, C10_parallel_begin, C10_parallel_awake); retry: attempts = "
          "min(n, first success + 1), eventual success counts, last exception reported, BaseException not retried, n = 1 is the identity, retry reaches "
          "calls, store ops and mtime queries (C10_retry_*). Real-thread rendezvous runs check that max_workers independent calls do run in parallel.", "4/C10"),
  "C17": ("proof", "Lean 4 proof (interrupt transition in the engine model) + trace refinement check with injected KeyboardInterrupt",
